@@ -53,7 +53,9 @@ partial def shapes (t : Tree) : List String :=
       (if name == "oC_MapLiteral" &&
           (let ks := (kidsOfRule N t "oC_PropertyKeyName").map (fun k => unescapeKey (getText 100000 k)); ks.eraseDups.length != ks.length)
         then ["MapLiteralVisitor:duplicate-key-keeps-last"] else []) ++
-      (if name == "oC_PropertyExpression" && (kidsOfRule N t "oC_PropertyLookup").length ≥ 2 then ["PropertyExpressionVisitor:chained-lookup-keeps-last-key"] else [])
+      (if name == "oC_PropertyExpression" && (kidsOfRule N t "oC_PropertyLookup").length ≥ 2 then ["PropertyExpressionVisitor:chained-lookup-keeps-last-key"] else []) ++
+      (if name == "oC_PropertyExpression" && (match kidOfRule N t "oC_Atom" with | some a => hasTok N a "COUNT" | none => false)
+        then ["PropertyExpressionVisitor:count-star-atom-left-nil"] else [])
     -- repaired shapes (status fixed): recognised last, so that a regression gets its specific key without masking a known one
     let repaired : List String :=
       (if name == "oC_DoubleLiteral" then ["format.formatLiteral:float-reformatted"] else []) ++
@@ -100,7 +102,13 @@ def step (_ : Unit) (ts : List String) : Unit × String :=
         let unsup := t.rules.flatMap (fun r => List.replicate (Dawgs.C08.Inst.E.unsupErrCount r) (ruleName r)) ++ vuns
         let ign := (walked.filter (fun s => !(s.startsWith "!"))).eraseDups
         let shAll := (shapes t).eraseDups
-        let isRepaired (x : String) : Bool := x == "format.formatLiteral:float-reformatted" || x == "format.KindMatcher:multiple-labels-printed-as-disjunction"
+        -- shapes whose defect is repaired are listed last, so that a rejection is attributed to a shape that is still live
+        let isRepaired (x : String) : Bool := x == "format.formatLiteral:float-reformatted" || x == "format.KindMatcher:multiple-labels-printed-as-disjunction" ||
+          (Repair.namespaceDot && x == "format.FunctionInvocation:namespace-separator-missing") ||
+          (Repair.exactHops && x == "oC_RangeLiteral:exact-hops-read-as-lower-bound") ||
+          (Repair.nestedNot && x == "oC_NotExpression:repeated-NOT-collapsed") ||
+          (Repair.spNotOperator && x == "ArithmeticExpressionVisitor:non-blank-SP-read-as-operator") ||
+          (Repair.chainedLookupRejected && x == "PropertyExpressionVisitor:chained-lookup-keeps-last-key")
         let sh := shAll.filter (fun x => !(isRepaired x)) ++ shAll.filter isRepaired
         let (b, m, e) := match build N t with
           | .ok q =>
